@@ -16,7 +16,7 @@ type Feature struct {
 	CodonStart int      // 1..3 (1 for mature children)
 	Kind       string   // "CDS" or "mature"
 	Parent     string
-	LocForm    int // GenBank rendering variant for reverse multi-segment features
+	LocForm    int  // GenBank rendering variant for reverse multi-segment features
 	NoID       bool // GFF3 rendering: the row carries no ID attribute (only Parent and Name)
 }
 
@@ -72,6 +72,7 @@ type AnnoOpts struct {
 	Isoforms     bool // allow a second CDS with the same name, outer bounds and strand but another exon junction
 	SamConflicts bool // (SAM form) allow an extra supplementary record whose bases may disagree with the others
 	NoStop       bool // allow CDS features that do not end in a stop codon (partial CDS, polyprotein fragments)
+	DupNames     bool // allow two single-row CDS that share a gene name, and top-level GFF3 rows without an ID
 	Rotate       bool // allow joins whose segments are not written in ascending order (a feature spanning the origin of a circular genome)
 }
 
@@ -156,6 +157,26 @@ func MakeAnnotation(r *fw.Rng, L int, o AnnoOpts) Annotation {
 		}
 		if f.Name == "" && r.Chance(0.7) {
 			an.Feats = append(an.Feats, makeChildren(r, f)...)
+		}
+	}
+	if o.DupNames {
+		// ID is optional in GFF3 for a feature nothing refers to; two CDS may carry the same gene name
+		var single []int
+		for i, f := range an.Feats {
+			if f.Kind == "CDS" && f.Name != "" && len(f.Segs) == 1 && !strings.HasSuffix(f.ID, "-iso") {
+				single = append(single, i)
+			}
+		}
+		for _, i := range single {
+			if r.Chance(0.3) {
+				an.Feats[i].NoID = true
+			}
+		}
+		if len(single) >= 2 && r.Chance(0.3) {
+			a, b := single[r.Intn(len(single))], single[r.Intn(len(single))]
+			if a != b {
+				an.Feats[b].Name = an.Feats[a].Name
+			}
 		}
 	}
 	if len(an.Feats) == 0 {
@@ -507,6 +528,8 @@ func RenderGFFSeq(r *fw.Rng, a Annotation, withFasta bool, fastaSeq string) stri
 			attrs := "ID=" + f.ID
 			if f.NoID && f.Parent != "" {
 				attrs = "Parent=" + f.Parent // ID is optional in GFF3 for features nothing refers to
+			} else if f.NoID && f.Name != "" && len(f.Segs) == 1 {
+				attrs = "gbkey=CDS" // the Name follows below
 			} else if f.Parent != "" {
 				attrs += ";Parent=" + f.Parent
 			}
